@@ -5,6 +5,7 @@ mod api;
 mod arith;
 mod conc;
 mod eqv;
+mod interp;
 mod progen;
 mod lang;
 mod prec;
@@ -44,6 +45,7 @@ fn main() {
             "lang" => out(&lang::run(&args[2..])),
             "gen" => out(&progen::run(&args[2..])),
             "api" => out(&api::run(&args[2..])),
+            "interp" => out(&interp::run_file(&args[2..])),
             "det" => {
                 lang::det(&args[2..]);
             }
